@@ -205,7 +205,7 @@ theorem queryBucket_sound_sqlite (s : Sqlite.St D) (b : String) (S E : Int) (r :
   split at hr
   · injection hr with hr
     subst hr
-    obtain ⟨m, es, hv, hm, hw, _⟩ := Sqlite.get_sound s b (-1) _ _ x hx
+    obtain ⟨m, es, hv, hm, hw⟩ := Sqlite.get_sound s b (-1) _ _ x hx
     exact ⟨m, es, hv, hm, hw, rounded_near S E x hw⟩
   · cases hr
 
@@ -215,8 +215,7 @@ theorem queryBucket_complete_sqlite (s : Sqlite.St D) (b : String) (S E : Int) (
     ∃ r, queryBucket (Reads.ofSqlite s) b S E = .ok r ∧ e ∈ r := by
   rw [queryBucket_sqlite, isSome_of_view hv]
   refine ⟨_, rfl, ?_⟩
-  exact Sqlite.get_complete_partial s b (-1) (by omega) _ _ m es hv e he (rounded_of_true S E e hw)
-    (fun h => by cases h)
+  exact Sqlite.get_complete s b (-1) (by omega) _ _ m es hv e he (rounded_of_true S E e hw)
 
 theorem queryBucketEventcount_matches_sqlite (s : Sqlite.St D) (b : String) (S E : Int) (n : Nat)
     (hn : queryBucketEventcount (Reads.ofSqlite s) b S E = .ok n) :
